@@ -298,6 +298,7 @@ func (s *server) ModifyColumnFamilies(ctx context.Context, req *btapb.ModifyColu
 		}
 	}
 
+	dropped := make(map[string]bool)
 	for _, mod := range req.Modifications {
 		if create := mod.GetCreate(); create != nil {
 			if _, ok := cfs[mod.Id]; ok {
@@ -311,24 +312,7 @@ func (s *server) ModifyColumnFamilies(ctx context.Context, req *btapb.ModifyColu
 				return nil, fmt.Errorf("can't delete unknown family %q", mod.Id)
 			}
 			delete(cfs, mod.Id)
-
-			// Purge all data for this column family. Rows that are left without any
-			// cell are removed (after the iteration, which must not see deletions).
-			var emptied []keyType
-			tbl.rows.Ascend(func(r *btpb.Row) bool {
-				r, changed := scrubRow(r, tbl.cols())
-				if changed {
-					if len(r.Families) == 0 {
-						emptied = append(emptied, r.Key)
-					} else {
-						tbl.rows.ReplaceOrInsert(r)
-					}
-				}
-				return true
-			})
-			for _, key := range emptied {
-				tbl.rows.Delete(key)
-			}
+			dropped[mod.Id] = true
 		} else if modify := mod.GetUpdate(); modify != nil {
 			cf, ok := cfs[mod.Id]
 			if !ok {
@@ -340,7 +324,40 @@ func (s *server) ModifyColumnFamilies(ctx context.Context, req *btapb.ModifyColu
 		}
 	}
 
+	// Persist the new definition before touching any row: if the process dies while the data of a dropped family
+	// is being purged, the family must not come back half empty (the leftover cells belong to no family of the
+	// table and are not served).
 	s.storage.SetTableMeta(tbl.def)
+
+	if len(dropped) > 0 {
+		// Purge all data of the dropped column families (also when a family of that name was created again by the
+		// same request). Rows that are left without any cell are removed (after the iteration, which must not
+		// see deletions).
+		var emptied []keyType
+		tbl.rows.Ascend(func(r *btpb.Row) bool {
+			changed := false
+			kept := r.Families[:0]
+			for _, fam := range r.Families {
+				if dropped[fam.Name] {
+					changed = true
+					continue
+				}
+				kept = append(kept, fam)
+			}
+			r.Families = kept
+			if changed {
+				if len(r.Families) == 0 {
+					emptied = append(emptied, r.Key)
+				} else {
+					tbl.rows.ReplaceOrInsert(r)
+				}
+			}
+			return true
+		})
+		for _, key := range emptied {
+			tbl.rows.Delete(key)
+		}
+	}
 	return tbl.def, nil
 }
 
